@@ -284,9 +284,7 @@ func (m *ChMask) UnmarshalBinary(data []byte) error {
 
 	n := binary.LittleEndian.Uint16(data)
 	for i := uint(0); i < 16; i++ {
-		if n&(1<<i) != 0 {
-			m[i] = true
-		}
+		m[i] = n&(1<<i) != 0
 	}
 
 	return nil
